@@ -661,6 +661,7 @@ example : tpTrace 2 [(1, 0), (1, 0)] [1/2, 1/2, 1/2, 1/2] 0 = some true := by de
 
 section bridge3
 open Matrix
+open scoped ComplexOrder
 /-- C01.4 `is_hermitian` at tolerance 0 on a well-sized model matrix decides exact Hermiticity of the matrix it denotes. -/
 theorem isHermitian_zero_iff (M : CMat) (hok : M.ok = true) :
     isHermitian M 0 = some true ↔ M.toMatrix.IsHermitian := by
@@ -732,7 +733,53 @@ theorem stateTraceOne_exact_iff_rtol_zero :
     unfold stateTraceOne; rw [ht]; simp
 
 example : isHermitian ⟨2, [(1/2, 0), (1/4, 1/8), (1/4, -1/8), (1/2, 0)]⟩ 0 = some true := by decide +kernel
+
+/-- C01 state, on the matrix, WITHOUT a separate trace hypothesis: for an exactly Hermitian density matrix the model trace is the
+(real) matrix trace `x`, and physical ⇒ `|x − 1| ≤ atol_eq + rtol` ∧ `ρ + (atol_ineq+ε)•1` PSD; conversely with `atol_ineq − ε`. -/
+theorem statePhysical_sandwich_matrix_trace (rho : CMat) (eigs : List ℚ) (ae ai : ℚ) (ε : ℝ) (hok : rho.ok = true)
+    (hl : eigs.length = rho.d) (ha : 0 ≤ ai) (hH : rho.toMatrix.IsHermitian) (hap : EigApprox hH eigs ε) :
+    ∃ x : ℚ, (((x : ℚ) : ℝ) : ℂ) = rho.toMatrix.trace ∧
+      (statePhysical rho eigs ae ai = some true →
+        |x - 1| ≤ ae + state_is_trace_one_rtol ∧
+        (rho.toMatrix + ((((ai : ℚ) : ℝ) + ε : ℝ) : ℂ) • (1 : Matrix (Fin rho.d) (Fin rho.d) ℂ)).PosSemidef) ∧
+      (|x - 1| ≤ ae + state_is_trace_one_rtol ∧
+        (rho.toMatrix + ((((ai : ℚ) : ℝ) - ε : ℝ) : ℂ) • (1 : Matrix (Fin rho.d) (Fin rho.d) ℂ)).PosSemidef →
+        statePhysical rho eigs ae ai = some true) := by
+  obtain ⟨x, hx⟩ := trace_real_of_hermitian rho hok hH
+  refine ⟨x, ?_, statePhysical_sandwich_matrix rho eigs x ae ai ε hok hl ha hx hH hap⟩
+  rw [← trace_toMatrix rho hok (x, 0) hx]
+  simp [toC]
+
+-- instantiated at the mixed qubit state diag(2/3, 1/3) with the float-like eigenvalue list (ε = 10⁻³)
+example := statePhysical_sandwich_matrix_trace exRho [333/1000, 667/1000] (1/100) (1/100) (1/1000) (by decide) (by decide)
+    (by norm_num) exRho_hermitian exRho_eigApprox
+
 end bridge3
+
+/-- C01.3 exact trace preservation: at tolerance 0 the basis-generic branch of `gate.is_tp` is true exactly when the map preserves the
+trace of EVERY basis element, `Σ_b hs[b][a]·Tr B_b = Tr B_a` (hence, by linearity, of every operator in the span of the basis). -/
+theorem tpTrace_zero_iff (n : Nat) (t : List C) (hs : List Rat) :
+    tpTrace n t hs 0 = some true ↔
+      hs.length = n * n ∧ t.length = n ∧ ∀ a, a < n → ∃ z, traceAfter n t hs a = some z ∧ t[a]? = some z := by
+  rw [tpTrace_iff]
+  constructor
+  · rintro ⟨h1, h2, h⟩
+    refine ⟨h1, h2, fun a ha => ?_⟩
+    obtain ⟨after, before, ha1, ha2, _, hle⟩ := h a ha
+    have hab : after = before := by
+      have := (closeCC_zero_iff after before).1 (by
+        unfold isCloseCC
+        simp only [↓reduceIte, le_refl, decide_true, Bool.true_and, Option.some.injEq, decide_eq_true_eq]
+        simpa using hle)
+      exact this
+    exact ⟨after, ha1, hab ▸ ha2⟩
+  · rintro ⟨h1, h2, h⟩
+    refine ⟨h1, h2, fun a ha => ?_⟩
+    obtain ⟨z, hz1, hz2⟩ := h a ha
+    exact ⟨z, z, hz1, hz2, le_rfl, by simp⟩
+
+example : tpTrace 2 [(1, 0), (1, 0)] [1/2, 1/2, 1/2, 1/2] 0 = some true := by decide +kernel
+
 
 /-! ## the basis verdicts that feed the identity-first flag -/
 
